@@ -485,7 +485,7 @@ def replay(c):
 
 def plan(tier):
     items = []
-    spec = [(1, 3, NAMES_Q, 3), (4, 4, ("a", "A", "[a]"), 2), (1, 3, ("a\nb", "A\nb", "a"), 2)] if tier == "quick" else \
+    spec = [(1, 3, NAMES_Q, 3), (4, 4, ("a", "A", "[a]"), 2), (1, 3, ("a\nb", "A\nb", "a"), 2), (4, 5, ("b",), 3)] if tier == "quick" else \
            [(1, 3, NAMES_Q, 3), (4, 4, NAMES_Q, 3), (1, 3, NAMES_T, 2), (5, 5, ("a", "A"), 2)]
     for lo, hi, alphabet, maxcomp in spec:
         for n in range(lo, hi + 1):
